@@ -602,8 +602,11 @@ def run_impl(case):
         obs['msg_ok'] = None
         try:
             bad = S.find_numpy_and_non_strings(value if not emit else _embed(case, value))
+            exp = _expected_bad(spec, env, tuple(case.get('embed', [])) if emit else ())
             obs['msg_ok'] = (msg == 'These paths end in incompatible non-string or Numpy '
                                     f'string keys: {bad}')
+            if obs['msg_ok'] and str(bad) != str(exp):
+                obs['msg_ok'] = f'names {bad}, the offending keys are {exp}'
         except Exception as e2:  # noqa
             obs['msg_ok'] = f'find_numpy_and_non_strings raised {exc_name(e2)}'
     except Exception as e:  # noqa
@@ -700,6 +703,19 @@ def run_impl(case):
                 and type(back) is str:
             fails.append('tag-dispatch: a string matching the units pattern was returned as is')
     return {'obs': obs, 'fails': fails}
+
+
+def _expected_bad(spec, env, curr=()):
+    """paths (through dicts only, as the message documents) ending in a key that is not a str,
+    or is a numpy string — computed from the case, not by the implementation"""
+    out = []
+    if _kind(spec) == 'd':
+        for key, v in spec['d']:
+            k = build_key(key, env)
+            if _kind(key) in ('o', 'ns'):
+                out.append(curr + (k,))
+            out.extend(_expected_bad(v, env, curr + (k,)))
+    return out
 
 
 def _embed(case, value):
@@ -845,6 +861,8 @@ def _structure(spec, out, env, reprs, order, ctr, path='$'):
     if k == 'u':
         return None if out == '!units[' + spec['u'] + ']' else f'{path}: unit {spec["u"]} -> {out!r}'
     if k == 'd':
+        if any(_kind(key) != 's' for key, _ in spec['d']):
+            return f'{path}: a dict with a non-string key was serialized: {_short(jenc(out))}'
         if type(out) is not dict or list(out.keys()) != [key['s'] for key, _ in spec['d']]:
             return f'{path}: dict keys {[key for key, _ in spec["d"]]} -> {_short(jenc(out))}'
         for key, v in spec['d']:
@@ -914,6 +932,8 @@ def _restored(spec, back, env, reprs, order, ctr, sup_tags=True, path='$'):
             return f'{path}: unit {spec["u"]} -> {back!r}'
         return None
     if k == 'd':
+        if any(_kind(key) != 's' for key, _ in spec['d']):
+            return None     # already reported by accepts-unsupported
         if type(back) is not dict or list(back.keys()) != [key['s'] for key, _ in spec['d']]:
             return f'{path}: dict keys changed: {list(back.keys()) if type(back) is dict else back!r}'
         for key, v in spec['d']:
@@ -1254,9 +1274,19 @@ def g_leaf(rng, hashable=False):
     if r < 0.70:
         return {'ns': rng.choice(PLAIN_STRS)}
     if r < 0.78:
-        return g_np_scalar(rng)
+        x = g_np_scalar(rng)
+        if hashable and x['np'][0] in NP_INT and x['np'][0] != 'int64':
+            # numpy 2: np.uint8(3) == 3600 raises OverflowError while hashing into a set
+            lit = int(x['np'][1])
+            x = {'np': ['int64', str(lit if -2 ** 63 <= lit < 2 ** 63 else 7)]}
+        return x
     if r < 0.90:
-        return g_quantity(rng) if not hashable else _fit({'q': [g_mag(rng), g_unit(rng)]}, rng)
+        if not hashable:
+            return g_quantity(rng)
+        q = _fit({'q': [g_mag(rng), g_unit(rng)]}, rng)
+        if _kind(q['q'][0]) == 'np' and q['q'][0]['np'][0] in NP_INT:
+            q['q'][0] = {'np': ['int64', q['q'][0]['np'][1]]}   # pint hashes via base units: 13 h overflows uint8
+        return q
     if r < 0.94:
         return {'u': g_unit(rng, bare=True)}
     if r < 0.97:
